@@ -409,6 +409,27 @@ func (c C16) Run(t *tape.Tape, opt core.RunOpt) (res core.Result) {
 			}
 		}
 	}
+	// an input type gains a defaulted field through an extension that is part of
+	// the definition set (a split may deliver it in a later load than the
+	// directives and fields that use the input type)
+	if !illFormed {
+		var ins []*c16Frag
+		for _, f := range frags {
+			if f.spec != nil && f.spec.Kind == "input" {
+				ins = append(ins, f)
+			}
+		}
+		if len(ins) > 0 && t.Bool(1, 3) {
+			in := ins[t.Draw(len(ins))]
+			for _, f := range ins {
+				if litInputs[f.name] && t.Bool(2, 3) {
+					in = f
+				}
+			}
+			frags = append(frags, &c16Frag{name: "<extend input " + in.name + ">", refs: []string{in.name},
+				text: fmt.Sprintf("extend input %s {\n  zzd%d: Int = %d\n}\n", in.name, t.Draw(9), 1+t.Draw(9))})
+		}
+	}
 	defOf := map[string]int{}
 	for i, f := range frags {
 		defOf[f.name] = i
@@ -456,6 +477,11 @@ func (c C16) Run(t *tape.Tape, opt core.RunOpt) (res core.Result) {
 			var queues [][]string
 			for i, f := range frags {
 				if f.spec != nil && t.Bool(2, 3) {
+					if _, explicit := defOf["<extend input "+f.name+">"]; explicit {
+						// the set itself extends this type: where that block stands
+						// relative to generated ones would decide the member order
+						continue
+					}
 					if b, xs, ok := splitSpecMulti(t, f.spec); ok {
 						texts[i] = b
 						queues = append(queues, xs)
